@@ -1085,6 +1085,9 @@ class MarkovChainMonteCarloMethod:
                     1,
                 )
                 for stage, _ in sampling_stages_pb:
+                    if stage.n_iter == 0:
+                        # Nothing to sample or adapt in an empty stage
+                        continue
                     for chain_it in chain_iterators:
                         chain_it.sequence = range(stage.n_iter)
                     chain_states, adapter_states, exception = sample_chains_func(
